@@ -84,7 +84,9 @@ pub mod verif_hooks {
     pub use super::links::{Links, TriggerUnlink};
     pub use super::remotes::verif_hooks::Uplinks;
     pub use super::remotes::{LaneRegistry, RemoteSender, RemoteTracker, UplinkResponse};
-    pub use super::verif_write_task::{write_task_for_verif, WriteTaskHandles};
+    pub use super::verif_write_task::{
+        write_task_for_verif, write_task_for_verif_reporting, WriteTaskHandles,
+    };
     pub use super::write_fut::{SpecialAction, WriteAction, WriteTask};
 }
 use tokio::sync::{mpsc, oneshot};
@@ -2206,6 +2208,23 @@ pub mod verif_write_task {
         lanes: Vec<(&str, UplinkKind, bool)>,
         lane_buffer: NonZeroUsize,
     ) -> (impl Future<Output = Result<(), StoreError>> + Send + 'static, WriteTaskHandles) {
+        write_task_for_verif_reporting(identity, node_uri, runtime_config, lanes, lane_buffer, None)
+    }
+
+    /// As `write_task_for_verif`, with an aggregate uplink reporter for the agent (no lane
+    /// reporters are registered: the registration channel is closed).
+    pub fn write_task_for_verif_reporting(
+        identity: Uuid,
+        node_uri: &str,
+        runtime_config: AgentRuntimeConfig,
+        lanes: Vec<(&str, UplinkKind, bool)>,
+        lane_buffer: NonZeroUsize,
+        aggregate: Option<UplinkReporter>,
+    ) -> (impl Future<Output = Result<(), StoreError>> + Send + 'static, WriteTaskHandles) {
+        let reporting = aggregate.map(|agg| {
+            let (reg_tx, _reg_rx) = mpsc::channel(1);
+            NodeReporting::new(identity, agg, reg_tx)
+        });
         let (stop_tx, stop_rx) = trigger::trigger();
         let mut agent_side = vec![];
         let mut runtime_side = vec![];
@@ -2223,7 +2242,7 @@ pub mod verif_write_task {
             ReceiverStream::new(messages_rx).take_until(stop_rx),
             read_tx,
             vote1,
-            None,
+            reporting,
             StoreDisabled,
         );
         let handles = WriteTaskHandles { read_voter: vote2, http_voter: vote3, vote_rx, stop: Some(stop_tx), messages_tx, read_rx, lanes: agent_side };
